@@ -25,8 +25,6 @@ Lemma all_recs_eq l : all_recs l = flat (l_segs l).
 Proof. reflexivity. Qed.
 
 (* offsets handed out by number *)
-Fixpoint zseq (n : Z) (k : nat) : list Z :=
-  match k with O => [] | S k' => n :: zseq (n + 1) k' end.
 
 Lemma number_offs n ms : map r_off (number n ms) = zseq n (length ms).
 Proof. revert n. induction ms as [|m t IH]; intros n; [reflexivity|]. cbn. f_equal. apply IH. Qed.
